@@ -3,7 +3,9 @@ package main
 // C07 — transaction byte offsets point at the decoded components.
 //
 // op:  blk <era> <form-vector description (informational)> <hex of the block>
-// out: S=<ranges|err> E=<ranges|err> cmp=<ok|nodec|bad:...>
+// out: S=<ranges|err> E=<ranges|err> cmp=<ok|nodec|bad:...> X=<witness component ranges|err>
+//   X  = per transaction "D<o>+<l>,..;R<tag>.<index>@<o>+<l>,..;S<o>+<l>,.." (datums and scripts
+//        sorted by offset, redeemers by key; "-" when the transaction has none), "|"-separated
 //
 //   S = StreamingBlockDecoder.DecodeWithOffsets (what NewBlockFromCborWithOffsets reports)
 //   E = ExtractTransactionOffsets
@@ -22,13 +24,15 @@ import (
 	"reflect"
 	"sort"
 	"strings"
+	"time"
 
 	"github.com/blinklabs-io/gouroboros/ledger"
 	"github.com/blinklabs-io/gouroboros/ledger/common"
 )
 
 func init() {
-	register(&Prop{ID: "C07", Gen: genC07, Run: runC07})
+	// generous per-op deadline: verdicts must not depend on machine load
+	register(&Prop{ID: "C07", Gen: genC07, Run: runC07, Timeout: 3 * time.Minute})
 	synthDijkstraAccepts = func(b []byte) bool {
 		_, err := ledger.NewBlockFromCbor(eraBlockType["dijkstra"], b, common.VerifyConfig{SkipBodyHashValidation: true})
 		return err == nil
@@ -107,8 +111,20 @@ func genC07(r *Rand, n int, tier string, emit func(string)) {
 		f := fx[r.Intn(len(fx))]
 		root, _ := parseCborAll(f.data)
 		var desc []string
-		mode := r.Intn(10)
+		mode := r.Intn(11)
 		switch {
+		case mode == 10: // metadata key that is not a transaction index (>= 2^32): must not be attributed to a transaction
+			md := root.kid(3)
+			if f.era == "byron" || f.era == "dijkstra" || md == nil || md.major != 5 || len(md.kids) == 0 {
+				continue
+			}
+			k := md.kids[2*r.Intn(len(md.kids)/2)]
+			if k.major != 0 {
+				continue
+			}
+			k.arg += uint64(1+r.Intn(3)) << 32
+			k.width = 8
+			desc = append(desc, "metakey+2^32")
 		case mode < 4: // one container, shallow
 			cs := collect(root, Pick(r, 1, 2, 2, 3, 3, 4), isContainer)
 			c := cs[r.Intn(len(cs))]
@@ -265,10 +281,7 @@ func compareOffsets(tag string, data []byte, o *common.BlockTransactionOffsets, 
 			}
 		} else if loc.Metadata.Length != 0 {
 			// a range is reported although the decoded transaction has no auxiliary data
-			if _, isSet := rawMetadataOf(blk, tx, i); !isSet {
-				// no stored bytes to compare with: not judged
-				_ = isSet
-			}
+			return fmt.Sprintf("%s:tx%d.meta-spurious", tag, i)
 		}
 		outs := tx.Outputs()
 		if len(loc.Outputs) != len(outs) {
@@ -321,6 +334,8 @@ func runC07(op string) string {
 		if eerr == nil {
 			if m := compareOffsets("E", data, eo, blk); m != "" {
 				bad = append(bad, m)
+			} else if m := g10bCompareComponents("E", data, eo, blk); m != "" {
+				bad = append(bad, m)
 			}
 		} else {
 			bad = append(bad, "E:err")
@@ -330,5 +345,139 @@ func runC07(op string) string {
 			cmp = "bad:" + strings.Join(bad, ";")
 		}
 	}
-	return fmt.Sprintf("S=%s E=%s cmp=%s", fmtOffsets(so, serr), fmtOffsets(eo, eerr), cmp)
+	return fmt.Sprintf("S=%s E=%s cmp=%s X=%s", fmtOffsets(so, serr), fmtOffsets(eo, eerr), cmp, g10bFmtComponents(eo, eerr))
+}
+
+func g10bSortedRanges(rs []common.ByteRange) string {
+	sort.Slice(rs, func(i, j int) bool {
+		if rs[i].Offset != rs[j].Offset {
+			return rs[i].Offset < rs[j].Offset
+		}
+		return rs[i].Length < rs[j].Length
+	})
+	parts := make([]string, len(rs))
+	for i, r := range rs {
+		parts[i] = fmtRange(r)
+	}
+	return strings.Join(parts, ",")
+}
+
+// g10bFmtComponents prints the datum / redeemer / script ranges of every transaction.
+func g10bFmtComponents(o *common.BlockTransactionOffsets, err error) string {
+	if err != nil || o == nil {
+		return "err"
+	}
+	txs := make([]string, len(o.Transactions))
+	for i, t := range o.Transactions {
+		if len(t.Datums) == 0 && len(t.Redeemers) == 0 && len(t.Scripts) == 0 {
+			txs[i] = "-"
+			continue
+		}
+		var ds, ss []common.ByteRange
+		for _, r := range t.Datums {
+			ds = append(ds, r)
+		}
+		for _, r := range t.Scripts {
+			ss = append(ss, r)
+		}
+		keys := make([]common.RedeemerKey, 0, len(t.Redeemers))
+		for k := range t.Redeemers {
+			keys = append(keys, k)
+		}
+		sort.Slice(keys, func(a, b int) bool {
+			if keys[a].Tag != keys[b].Tag {
+				return keys[a].Tag < keys[b].Tag
+			}
+			return keys[a].Index < keys[b].Index
+		})
+		rs := make([]string, len(keys))
+		for j, k := range keys {
+			rs[j] = fmt.Sprintf("%d.%d@%s", k.Tag, k.Index, fmtRange(t.Redeemers[k]))
+		}
+		txs[i] = "D" + g10bSortedRanges(ds) + ";R" + strings.Join(rs, ",") + ";S" + g10bSortedRanges(ss)
+	}
+	if len(txs) == 0 {
+		return "none"
+	}
+	return strings.Join(txs, "|")
+}
+
+// g10bCompareComponents: every reported datum / redeemer / script range must slice out the
+// bytes of a decoded component that has the reported key.
+func g10bCompareComponents(tag string, data []byte, o *common.BlockTransactionOffsets, blk common.Block) string {
+	if o == nil {
+		return ""
+	}
+	txs := blk.Transactions()
+	if len(txs) != len(o.Transactions) {
+		return ""
+	}
+	// a script key that matches no decoded script is reported only if nothing else is
+	// wrong in the whole block (it is the recorded finding class `script-key`)
+	scriptKey := ""
+	for i, tx := range txs {
+		loc := o.Transactions[i]
+		ws := tx.Witnesses()
+		if ws == nil {
+			if len(loc.Datums)+len(loc.Redeemers)+len(loc.Scripts) > 0 {
+				return fmt.Sprintf("%s:tx%d.nowit", tag, i)
+			}
+			continue
+		}
+		for h, r := range loc.Datums {
+			sl := sliceRange(data, r)
+			ok := false
+			for _, d := range ws.PlutusData() {
+				if bytes.Equal(d.Cbor(), sl) && sl != nil {
+					ok = true
+				}
+			}
+			if !ok || sum256(sl) != h {
+				return fmt.Sprintf("%s:tx%d.datum", tag, i)
+			}
+		}
+		for k, r := range loc.Redeemers {
+			sl := sliceRange(data, r)
+			ok := false
+			if reds := ws.Redeemers(); reds != nil {
+				for rk, rv := range reds.Iter() {
+					if rk.Tag == k.Tag && rk.Index == k.Index && sl != nil && bytes.Equal(rv.Data.Cbor(), sl) {
+						ok = true
+					}
+				}
+			}
+			if !ok {
+				return fmt.Sprintf("%s:tx%d.redeemer", tag, i)
+			}
+		}
+		if len(loc.Scripts) > 0 {
+			have := map[common.ScriptHash]bool{}
+			for _, sc := range ws.NativeScripts() {
+				have[sc.Hash()] = true
+			}
+			for _, sc := range ws.PlutusV1Scripts() {
+				have[sc.Hash()] = true
+			}
+			for _, sc := range ws.PlutusV2Scripts() {
+				have[sc.Hash()] = true
+			}
+			for _, sc := range ws.PlutusV3Scripts() {
+				have[sc.Hash()] = true
+			}
+			if w4, ok := ws.(common.TransactionWitnessSetWithPlutusV4); ok {
+				for _, sc := range w4.PlutusV4Scripts() {
+					have[sc.Hash()] = true
+				}
+			}
+			for h, r := range loc.Scripts {
+				if sliceRange(data, r) == nil {
+					return fmt.Sprintf("%s:tx%d.script-range", tag, i)
+				}
+				if !have[h] && scriptKey == "" {
+					scriptKey = fmt.Sprintf("%s:tx%d.script-key", tag, i)
+				}
+			}
+		}
+	}
+	return scriptKey
 }
